@@ -210,7 +210,17 @@ func (w *faWalker) walk(v reflect.Value, hole int, path string) {
 				if tn == "BasicLit" { // the literal's kind follows its text
 					continue
 				}
-				w.add(&faLeaf{kind: faTok, addr: f, orig: reflect.ValueOf(int(f.Int())), hole: hole, path: p})
+				th := hole
+				if pf := v.FieldByName(fn + "Pos"); th < 0 && pf.IsValid() && pf.Type() == faPosType && pf.Int() != 0 {
+					// a token of a node that straddles a filler (the ':=' of "for «d:i := range xs» {")
+					at := int(pf.Int()) - w.base
+					for k, h := range w.holes {
+						if at >= h.lo && at < h.hi {
+							th = k
+						}
+					}
+				}
+				w.add(&faLeaf{kind: faTok, addr: f, orig: reflect.ValueOf(int(f.Int())), hole: th, path: p})
 			case f.Type() == faChanDirType:
 				w.add(&faLeaf{kind: faChanDir, addr: f, orig: reflect.ValueOf(int(f.Int())), hole: hole, path: p})
 			case f.Type() == faPosType:
